@@ -301,7 +301,11 @@ def run_batch(modname: str, tier: str, batch_seed: int) -> int:
     replays = []
     for cls, b in sorted(new_v.items()):
         item = b["item"]
-        script = minimise(mod, item["script"], cls, float(os.environ.get("VERIF_MIN_S", "20")))
+        try:
+            script = minimise(mod, item["script"], cls, float(os.environ.get("VERIF_MIN_S", "20")))
+        except Exception:  # a minimiser problem must never hide the violation
+            lines.append("warning: minimisation failed, replay holds the original script\n" + traceback.format_exc()[-1500:])
+            script = item["script"]
         path = write_replay(mod, item["run_seed"], script, cls, b["v"]["text"])
         replays.append(path)
         lines.append(f"violation class={cls} runs={b['count']} first_index={item['index']} run_seed={item['run_seed']}: {b['v']['text']}")
